@@ -35,67 +35,78 @@ fn mk_request(as_of_frame: Option<u64>, as_of_ts: Option<i64>) -> SearchRequest 
 
 // C11 kernel: the time-travel candidate set is exactly
 // { active frames f : f.id <= as_of_frame and f.timestamp <= as_of_ts }.
+fn replay_frame_ids<const N: usize>() {
+    let mut toc = crate::memvid::lifecycle::empty_toc();
+    let mut ts = [0i64; N];
+    let mut st = [FrameStatus::Active; N];
+    let mut i = 0;
+    while i < N {
+        ts[i] = kani::any();
+        st[i] = any_status();
+        toc.frames.push(mk_frame(i as u64, ts[i], st[i]));
+        i += 1;
+    }
+    let mv = mk_memvid(toc, mk_header(65536));
+    let req = mk_request(kani::any(), kani::any());
+    let ids = mv.get_replay_frame_ids(&req);
+    match &ids {
+        Ok(v) => {
+            // soundness
+            let mut j = 0;
+            while j < v.len() {
+                let id = v[j];
+                assert!(id < N as u64, "[C11] time-travel filter returned an unknown frame");
+                let k = id as usize;
+                assert!(st[k] == FrameStatus::Active, "[C11] time-travel filter returned an inactive frame");
+                if let Some(n) = req.as_of_frame {
+                    assert!(id <= n, "[C11] as_of_frame returned a frame with a larger id (from the future)");
+                }
+                if let Some(t) = req.as_of_ts {
+                    assert!(ts[k] <= t, "[C11] as_of_ts returned a frame with a later timestamp (from the future)");
+                }
+                if j > 0 {
+                    assert!(v[j - 1] < id, "[C11] time-travel filter returned a frame twice or out of order");
+                }
+                j += 1;
+            }
+            // completeness: filtering must not drop frames that satisfy the cut-offs
+            let mut k = 0;
+            while k < N {
+                let ok = st[k] == FrameStatus::Active
+                    && req.as_of_frame.map_or(true, |n| (k as u64) <= n)
+                    && req.as_of_ts.map_or(true, |t| ts[k] <= t);
+                if ok {
+                    let mut found = false;
+                    let mut j = 0;
+                    while j < v.len() {
+                        if v[j] == k as u64 { found = true; }
+                        j += 1;
+                    }
+                    assert!(found, "[C11] time-travel filter dropped a frame that satisfies the cut-offs");
+                }
+                k += 1;
+            }
+            kani::cover!(v.len() == N, "all frames");
+            kani::cover!(v.len() == 1 && req.as_of_ts.is_some(), "timestamp cut-off bites");
+        }
+        Err(_) => assert!(false, "[C11] get_replay_frame_ids failed"),
+    }
+    leak(ids);
+    leak(req);
+    leak(mv);
+}
 verif_proof! { [C11 C08]
     #[kani::unwind(5)]
     #[kani::use_stub_set(crate::verif_env::memvid_stubs)]
-    fn c11_replay_frame_ids_3() {
-        let mut toc = crate::memvid::lifecycle::empty_toc();
-        let mut ts = [0i64; 3];
-        let mut st = [FrameStatus::Active; 3];
-        let mut i = 0;
-        while i < 3 {
-            ts[i] = kani::any();
-            st[i] = any_status();
-            toc.frames.push(mk_frame(i as u64, ts[i], st[i]));
-            i += 1;
-        }
-        let mv = mk_memvid(toc, mk_header(65536));
-        let req = mk_request(kani::any(), kani::any());
-        let ids = mv.get_replay_frame_ids(&req);
-        match &ids {
-            Ok(v) => {
-                // soundness
-                let mut j = 0;
-                while j < v.len() {
-                    let id = v[j];
-                    assert!(id < 3, "[C11] time-travel filter returned an unknown frame");
-                    let k = id as usize;
-                    assert!(st[k] == FrameStatus::Active, "[C11] time-travel filter returned an inactive frame");
-                    if let Some(n) = req.as_of_frame {
-                        assert!(id <= n, "[C11] as_of_frame returned a frame with a larger id (from the future)");
-                    }
-                    if let Some(t) = req.as_of_ts {
-                        assert!(ts[k] <= t, "[C11] as_of_ts returned a frame with a later timestamp (from the future)");
-                    }
-                    if j > 0 {
-                        assert!(v[j - 1] < id, "[C11] time-travel filter returned a frame twice or out of order");
-                    }
-                    j += 1;
-                }
-                // completeness: filtering must not drop frames that satisfy the cut-offs
-                let mut k = 0;
-                while k < 3 {
-                    let ok = st[k] == FrameStatus::Active
-                        && req.as_of_frame.map_or(true, |n| (k as u64) <= n)
-                        && req.as_of_ts.map_or(true, |t| ts[k] <= t);
-                    if ok {
-                        let mut found = false;
-                        let mut j = 0;
-                        while j < v.len() {
-                            if v[j] == k as u64 { found = true; }
-                            j += 1;
-                        }
-                        assert!(found, "[C11] time-travel filter dropped a frame that satisfies the cut-offs");
-                    }
-                    k += 1;
-                }
-                kani::cover!(v.len() == 3, "all three");
-                kani::cover!(v.len() == 1 && req.as_of_ts.is_some(), "timestamp cut-off bites");
-            }
-            Err(_) => assert!(false, "[C11] get_replay_frame_ids failed"),
-        }
-        leak(ids);
-        leak(req);
-        leak(mv);
-    }
+    fn c11_replay_frame_ids_3() { replay_frame_ids::<3>(); }
+}
+verif_proof! { [C11 C08]
+    #[kani::unwind(6)]
+    #[kani::use_stub_set(crate::verif_env::memvid_stubs)]
+    fn c11_replay_frame_ids_4() { replay_frame_ids::<4>(); }
+}
+verif_proof! { [C11 C08]
+    #[kani::unwind(7)]
+    #[kani::use_stub_set(crate::verif_env::memvid_stubs)]
+    fn c11_replay_frame_ids_5() { replay_frame_ids::<5>(); }
 }
